@@ -2,14 +2,14 @@
 \* of every restake / staking / lock / vault step are owned.  The allowed denoms are an input.  Nothing of x/feeds
 \* is looked at except the lock a vote leaves under the vault "feeds" (bounded, not predicted).
 CONSTANTS
-  Acct = {"a1", "a2", "a3"}
+  Acct = {"a1", "a2", "a3", "o1", "o2"}
   Val = {"v1", "v2", "v3"}
   Vault = {"k1", "k2", "feeds"}
   Denom = {"d1", "d2"}
   CoinSet <- TCoins
   AmtSet = {}
   LockSet = {}
-  U64Lim = 2000000
+  U64Lim = 200000000
   TraceFile = "trace.ndjson"
   Checked = {"deleg", "stake", "vault", "lock", "lidx", "modBal", "power"}
   Owned = {"Stake", "Unstake", "Delegate", "Undelegate", "Redelegate", "SetLock", "Vote", "Deactivate"}
